@@ -144,7 +144,7 @@ def run(p, led, tier):
                 et = it.enum_member(ET, energy) if energy else None
                 try:
                     if kind == "consume":
-                        ret = it.call_fi(meth, [st, amount, "op", et, allow_debt, Unknown("priority")], {})
+                        ret = it.call_fi(meth, [st, amount, "op", et, allow_debt, Unknown("priority", kind="int")], {})
                     elif kind == "regenerate":
                         ret = it.call_fi(meth, [st, amount, et], {})
                     else:
